@@ -3,7 +3,7 @@
    runner and by vm_compute inside Coq (Cases_*.v). *)
 From Coq Require Import List NArith ZArith Bool String.
 From Coq.Strings Require Import Byte.
-From OAP Require Import Base.Bytes Base.Res Base.Text Gen.Consts Model.Handshake Model.Metadata Model.Header Model.Frame Model.Stream Model.World Model.Ids Model.Waiters Model.Dispatch Model.WritePath Model.Recovery Model.Keepalive Model.WsBridge Model.Life.
+From OAP Require Import Base.Bytes Base.Res Base.Text Gen.Consts Model.Handshake Model.Metadata Model.Header Model.Frame Model.Stream Model.Chunks Model.World Model.Ids Model.Waiters Model.Dispatch Model.WritePath Model.Recovery Model.Keepalive Model.WsBridge Model.Life.
 Import ListNotations.
 Local Open Scope N_scope.
 
@@ -316,6 +316,25 @@ Definition run_st (op : bytes) (args0 : list bytes) : bytes :=
             match World.run gz codec w0 ops with
             | Some (_, rs) => join (str " ; ") (map result_s rs)
             | None => bad
+            end
+        | _, _, _ => bad end
+    | _ => bad end
+  else if bytes_eqb op (str "st.chunks") then
+    (* st.chunks <codec> <v> <chunk> <chunk> ... : a whole run of the TCP read loop on a fresh connection (Chunks.v)
+       output: <n> [<packets>] NEED|ERR <code>|PANIC|FUEL q=<bytes left> *)
+    match args with
+    | codec :: ver :: chunks =>
+        match undec codec, undec ver, omap_all unhexx chunks with
+        | Some codec, Some ver, Some cs =>
+            match run_chunks gz ver codec (fun _ _ => 0%nat) 0 (mkS None []) cs with
+            | (ps, e, sf) =>
+                decn (List.length ps) ++ str " [" ++ join (str " / ") (map pkt_s ps) ++ str "] " ++
+                match e with
+                | ENeed => str "NEED"
+                | EErr e => res_s (fun _ : unit => []) (Err e)
+                | EPanic => str "PANIC"
+                | EFuel => str "FUEL"
+                end ++ str " q=" ++ decn (List.length (s_q sf))
             end
         | _, _, _ => bad end
     | _ => bad end
